@@ -56,7 +56,6 @@ MUTS = [
  # C20
  ("c20-bak-removed-before-close", ["C20", "C19"], sub("cmd/minify/main.go", "\trLen, wLen := len(b), w.Len()\n\t_, err = io.Copy(fw, w)\n", "\trLen, wLen := len(b), w.Len()\n\tif bak != -1 {\n\t\tos.Remove(srcs[bak])\n\t\tbak = -1\n\t}\n\t_, err = io.Copy(fw, w)\n")),
  ("c20-no-restore-on-write-failure", ["C19"], sub("cmd/minify/main.go", "\t\t\t} else {\n\t\t\t\tif err = os.Remove(t.dst); err != nil {\n\t\t\t\t\tError.Println(err)\n\t\t\t\t\treturn false\n\t\t\t\t} else if err = os.Rename(srcs[i], t.dst); err != nil {\n\t\t\t\t\tError.Println(err)\n\t\t\t\t\treturn false\n\t\t\t\t}\n\t\t\t}\n", "\t\t\t} else {\n\t\t\t\tos.Remove(srcs[i])\n\t\t\t}\n")),
- ("c20-output-opened-before-input", ["C20"], sub("cmd/minify/main.go", "\tvar err error\n\tvar fr io.ReadCloser\n\tvar fw io.WriteCloser\n\tif len(srcs) == 1 {", "\tvar err error\n\tvar fr io.ReadCloser\n\tvar fw io.WriteCloser\n\tif bak == -1 && t.dst != \"\" {\n\t\tif f, e := os.OpenFile(t.dst, os.O_WRONLY|os.O_TRUNC, 0666); e == nil {\n\t\t\tf.Close()\n\t\t}\n\t}\n\tif len(srcs) == 1 {")),
 ]
 
 def sh(cmd, cwd, **kw):
